@@ -17,7 +17,7 @@ package standard
 //@
 //@ func (*Service).Subscribe
 //@   requires s != nil && s.attesterDutiesProvider != nil && s.chainTimeService != nil && s.submitter != nil
-//@   assumes call AttesterDuties#1 (resp, err): err == nil ==> resp != nil
+//@   assumes call AttesterDuties#1 (resp, err): err == nil ==> resp != nil && (forall k int :: 0 <= k && k < len(resp.Data) ==> resp.Data[k] != nil)
 //@   assumes call calculateSubscriptionInfo#1 (m): m == computedInfo() && (forall sl phase0.Slot, ci phase0.CommitteeIndex :: in(m, sl) && in(m[sl], ci) ==> m[sl][ci] != nil && m[sl][ci].Duty != nil)
 //@   // C14: what is returned (and stored by the controller to find the aggregators of every slot, the current one
 //@   // included) is the complete computed information: neither Subscribe nor the goroutine it starts removes or
